@@ -628,6 +628,27 @@ class TraceReset(Shape):
         obj.items = []
 
 
+EARLIER = '<items of earlier iterations>'
+
+
+class TracePrefix(Shape):
+    """Loop-level havoc of a list the loop builds: [<items of earlier iterations>] -- one opaque
+    marker standing for whatever the earlier iterations have put there.  A per-iteration clause
+    `outputs == iter.outputs + [x]` then says that x is put BEHIND everything that was there (an
+    insertion in front, a replacement of the list, or a dropped prefix does not satisfy it),
+    which TraceReset cannot express.  The length of such a list is unknown to the evaluator
+    (asking for it is an engine error, never a guess)."""
+
+    def sample(self, rng):
+        return SList([])
+
+    def fresh(self, ctx, name):
+        return SList([OpaqueVal.Val(EARLIER)])
+
+    def havoc(self, ctx, obj, name):
+        obj.items = [OpaqueVal.Val(EARLIER)]
+
+
 class EmptyList(Shape):
     def sample(self, rng):
         return SList([])
